@@ -253,6 +253,10 @@ impl W {
     }
 
     pub fn execute_deposit(&self, db: &mut Db, m: &MarketKeys, owner: Pubkey, nonce: [u8; 32], signer: Pubkey, throw_on_execution_error: bool) -> std::result::Result<(), TxError> {
+        process(db, &self.execute_deposit_ix(m, owner, nonce, signer, throw_on_execution_error), &[signer])
+    }
+
+    pub fn execute_deposit_ix(&self, m: &MarketKeys, owner: Pubkey, nonce: [u8; 32], signer: Pubkey, throw_on_execution_error: bool) -> Instruction {
         let deposit = self.deposit_pda(&owner, &nonce);
         let accounts = gmsol_store::accounts::ExecuteDeposit {
             authority: signer, store: self.store, token_map: self.token_map, oracle: self.oracle, market: m.market, deposit, market_token: m.market_token,
@@ -263,7 +267,7 @@ impl W {
         };
         let mut i = ix(self.pid, accounts, gmsol_store::instruction::ExecuteDeposit { execution_fee: 5_000, throw_on_execution_error });
         i.accounts.extend(self.feeds_sorted());
-        process(db, &i, &[signer])
+        i
     }
 
     pub fn close_deposit(&self, db: &mut Db, m: &MarketKeys, owner: Pubkey, nonce: [u8; 32], signer: Pubkey) -> std::result::Result<(), TxError> {
@@ -298,6 +302,10 @@ impl W {
     }
 
     pub fn execute_withdrawal(&self, db: &mut Db, m: &MarketKeys, owner: Pubkey, nonce: [u8; 32], signer: Pubkey, throw_on_execution_error: bool) -> std::result::Result<(), TxError> {
+        process(db, &self.execute_withdrawal_ix(m, owner, nonce, signer, throw_on_execution_error), &[signer])
+    }
+
+    pub fn execute_withdrawal_ix(&self, m: &MarketKeys, owner: Pubkey, nonce: [u8; 32], signer: Pubkey, throw_on_execution_error: bool) -> Instruction {
         let wd = self.withdrawal_pda(&owner, &nonce);
         let market_token_vault = Pubkey::find_program_address(&[b"market_vault", self.store.as_ref(), m.market_token.as_ref()], &self.pid).0;
         let accounts = gmsol_store::accounts::ExecuteWithdrawal {
@@ -308,7 +316,7 @@ impl W {
         };
         let mut i = ix(self.pid, accounts, gmsol_store::instruction::ExecuteWithdrawal { execution_fee: 5_000, throw_on_execution_error });
         i.accounts.extend(self.feeds_sorted());
-        process(db, &i, &[signer])
+        i
     }
 
     pub fn close_withdrawal(&self, db: &mut Db, m: &MarketKeys, owner: Pubkey, nonce: [u8; 32], signer: Pubkey) -> std::result::Result<(), TxError> {
